@@ -50,9 +50,21 @@ func SqrtNegAPlusTwo() *big.Int {
 	return r
 }
 
+// VFactor is sqrt(U_FACTOR) = sqrt(-2*sqrt(-1)).  "sqrt" in this code base is the non-negative (even) root: that is what
+// SqrtRatioI/InvSqrt are documented to select, and the repository defines the constant through InvSqrt
+// (internal/elligator/constants_test.go).  The library's results do not depend on the sign (it normalises the sign
+// of every value derived from V_FACTOR), but the two limb encodings must hold the SAME defined value.
+func VFactor() *big.Int {
+	r, ok := evenRoot(ref.FMul(ref.FNeg(two), ref.SqrtM1))
+	if !ok {
+		panic("refconst: U_FACTOR is not a square")
+	}
+	return r
+}
+
 // Field returns the definition of every field constant, by the name used in the repository.
-// For square roots that the specifications pin to one root the pinned root is returned;
-// Either lists constants whose definition ("a square root of ...") admits both roots.
+// Every square root is pinned to one root: the RFC 9496 literals for the two Ristretto constants, the non-negative
+// (sgn0 = 0) root for the Elligator constants.
 func Field() map[string]*big.Int {
 	d := ref.D
 	a := ref.FNeg(one) // a = -1
@@ -77,6 +89,7 @@ func Field() map[string]*big.Int {
 		"constMONTGOMERY_A_SQUARED":           ref.FSq(MontA),
 		"constMONTGOMERY_SQRT_NEG_A_PLUS_TWO": SqrtNegAPlusTwo(),
 		"constMONTGOMERY_U_FACTOR":            ref.FMul(ref.FNeg(two), ref.SqrtM1), // -2 * sqrt(-1)
+		"constMONTGOMERY_V_FACTOR":            VFactor(),
 		"constFieldZero":                      big.NewInt(0),
 	}
 	// sanity of the two RFC 9496 roots against their defining equations (independent of the literals' origin)
@@ -87,14 +100,6 @@ func Field() map[string]*big.Int {
 		panic("refconst: INVSQRT_A_MINUS_D^2 * (a-d) != 1")
 	}
 	return m
-}
-
-// SquareOf lists the constants defined only as "a square root of X" (both roots satisfy the
-// definition and the library's results do not depend on the choice): name -> X.
-func SquareOf() map[string]*big.Int {
-	return map[string]*big.Int{
-		"constMONTGOMERY_V_FACTOR": ref.FMul(ref.FNeg(two), ref.SqrtM1), // V_FACTOR = sqrt(U_FACTOR)
-	}
 }
 
 // Niels returns the affine Niels form (y+x, y-x, 2dxy) of p.
